@@ -21,7 +21,14 @@ func FormatPacketDsl(dsl string) (string, error) {
 		return dsl, fmt.Errorf("syntax errors found: %v", listener.Errors)
 	}
 	formattor := NewPacketDslFormattor(stream)
+	// line breaks inside documentation literals are content, not layout: keep them out of the
+	// re-indentation by printing a mark that does not occur in the input
+	formattor.docLineBreak = "\x00"
+	for strings.Contains(dsl, formattor.docLineBreak) {
+		formattor.docLineBreak += "\x00"
+	}
 	formattedDsl := tree.Accept(formattor).(string)
+	formattedDsl = strings.ReplaceAll(formattedDsl, formattor.docLineBreak, "\n")
 	return strings.TrimSpace(formattedDsl), nil
 }
 
@@ -39,6 +46,15 @@ type PacketDslFormattor struct {
 	*gen.BasePacketDslVisitor
 	tokenStream  *antlr.CommonTokenStream
 	lineComments map[antlr.Token]struct{}
+	docLineBreak string
+}
+
+// docText returns a documentation literal with its line breaks replaced by docLineBreak (if set).
+func (v *PacketDslFormattor) docText(node antlr.TerminalNode) string {
+	if v.docLineBreak == "" {
+		return node.GetText()
+	}
+	return strings.ReplaceAll(node.GetText(), "\n", v.docLineBreak)
 }
 
 func (v *PacketDslFormattor) getHiddenLeft(token antlr.Token) string {
@@ -306,7 +322,7 @@ func (v *PacketDslFormattor) VisitFieldDefinition(ctx interface{}) interface{} {
 			field += " " + c.GetFname().GetText()
 		}
 		if c.STRING_LITERAL() != nil {
-			field += " " + c.STRING_LITERAL().GetText()
+			field += " " + v.docText(c.STRING_LITERAL())
 		}
 		b.WriteString(field + ",")
 	case *gen.InerObjectFieldContext:
@@ -393,7 +409,7 @@ func (v *PacketDslFormattor) VisitMetaDataDefinition(ctx *gen.MetaDataDefinition
 func (v *PacketDslFormattor) VisitLengthFieldDeclaration(ctx *gen.LengthFieldDeclarationContext) interface{} {
 	desc := ""
 	if ctx.STRING_LITERAL() != nil {
-		desc = " " + ctx.STRING_LITERAL().GetText()
+		desc = " " + v.docText(ctx.STRING_LITERAL())
 	}
 	typ := ""
 	if ctx.Type_() != nil {
@@ -407,7 +423,7 @@ func (v *PacketDslFormattor) VisitLengthFieldDeclaration(ctx *gen.LengthFieldDec
 func (v *PacketDslFormattor) VisitCheckSumFieldDeclaration(ctx *gen.CheckSumFieldDeclarationContext) interface{} {
 	desc := ""
 	if ctx.STRING_LITERAL() != nil {
-		desc = " " + ctx.STRING_LITERAL().GetText()
+		desc = " " + v.docText(ctx.STRING_LITERAL())
 	}
 	typ := ""
 	if ctx.Type_() != nil {
@@ -427,7 +443,7 @@ func (v *PacketDslFormattor) VisitMetaDataDeclaration(ctx *gen.MetaDataDeclarati
 	fieldName := ctx.GetName().GetText()
 	description := ""
 	if ctx.STRING_LITERAL() != nil {
-		description = ctx.STRING_LITERAL().GetText()
+		description = v.docText(ctx.STRING_LITERAL())
 	}
 
 	formattedDsl.WriteString(strings.TrimSpace(fmt.Sprintf("%s %s %s", typeName, fieldName, description)))
@@ -444,7 +460,7 @@ func (v *PacketDslFormattor) VisitRefMetaDataDeclaration(ctx *gen.RefMetaDataDec
 	fieldName := ctx.GetName().GetText()
 	description := ""
 	if ctx.STRING_LITERAL() != nil {
-		description = " " + ctx.STRING_LITERAL().GetText()
+		description = " " + v.docText(ctx.STRING_LITERAL())
 	}
 
 	formattedDsl.WriteString(strings.TrimSpace(fmt.Sprintf("%s %s%s", typeName, fieldName, description)))
